@@ -336,6 +336,54 @@ theorem C12_cyclic_cascade_exhausts_fuel (fuel : Nat) :
       simp [checkRow, cycleFks, hdb, runActs, applyAct, deleteVictims, runVictims, FkDecl.fk, Fk.refers,
         keyOf, hasNull, Value.isNull, List.getD, ih1, ih2]
 
+/-! ### TRUNCATE … CASCADE -/
+
+/-- `get_fk_children` looks at *all* foreign keys of a table, not at the first one -/
+theorem C12_truncate_children_all_fks (fks : List FkDecl) (tables : List Nat) (p c : Nat) :
+    c ∈ fkChildren fks tables p ↔ c ∈ tables ∧ c ≠ p ∧ ∃ d ∈ fks, d.child = c ∧ d.parent = p :=
+  mem_fkChildren fks tables p c
+
+/-- … so the children do not depend on the order in which foreign keys were declared -/
+theorem C12_truncate_children_perm (fks fks' : List FkDecl) (h : fks.Perm fks') (tables : List Nat) (p : Nat) :
+    fkChildren fks' tables p = fkChildren fks tables p :=
+  fkChildren_perm h tables p
+
+/-- TRUNCATE p CASCADE leaves no orphan, for every foreign key of the schema (any number per table,
+any declaration order): the tables it empties contain p and are closed under "references", so every
+foreign key either has an emptied child table or an untouched parent table -/
+theorem C12_truncate_cascade_no_orphans (fks : List FkDecl) (tables : List Nat) (fuel : Nat) (db db' : Db) (p : Nat)
+    (htab : ∀ d ∈ fks, d.child ∈ tables) (h : DbInv fks db)
+    (hr : truncateCascade fks tables fuel db p = .ok db') : DbInv fks db' ∧ db' p = [] := by
+  unfold truncateCascade at hr
+  split at hr
+  · simp at hr
+  · rename_i s hs
+    simp only [Except.ok.injEq] at hr; subst hr
+    obtain ⟨_, hp, hcl⟩ := visit_spec fks tables fuel [] [] p s (by intro x hx; simp at hx) hs
+    refine ⟨?_, by simp [emptyTables, hp]⟩
+    intro d hd c hc hn
+    simp only [emptyTables] at hc ⊢
+    split at hc
+    · simp at hc
+    · rename_i hcs
+      have hps : d.parent ∉ s := by
+        intro hps
+        by_cases heq : d.child = d.parent
+        · exact hcs (heq ▸ hps)
+        · exact hcs (hcl d.parent hps (by simp) d.child
+            ((mem_fkChildren fks tables d.parent d.child).mpr ⟨htab d hd, heq, d, hd, rfl, rfl⟩))
+      simp only [hps, if_false]
+      exact h d hd c hc hn
+
+/-- junction table: LINK(2) references A(0) and B(1); truncating B cascades to LINK whichever key
+was declared first -/
+example : (match truncateCascade
+    [{ child := 2, parent := 0, cols := [1], pcols := [0], onDelete := .noAction },
+     { child := 2, parent := 1, cols := [2], pcols := [0], onDelete := .noAction }] [0, 1, 2] 4
+    (fun i => if i = 2 then [[.int 1, .int 1, .int 1]] else [[.int 1]]) 1 with
+    | .ok db => [db 0, db 1, db 2]
+    | .error _ => []) = [[[.int 1]], [], []] := by decide
+
 /-! the part the code as it is violates -/
 
 /-- the full statement for a self-referencing table (parents = children = the table itself) -/
